@@ -549,6 +549,11 @@ def run(ctx):
         cov, acc = history.explore(ctx.pool, MOD, "heap", {"ops": ops_for(ctx.thorough and dt == "f8" and False), "dtype": dt}, depth, und)
         covs.append(cov)
         accs.append(acc)
+    if not ctx.thorough:
+        # float32 data with float64 operands: the result dtype is wider than the destination
+        cov, acc = history.explore(ctx.pool, MOD, "heap", {"ops": ops_for(False), "dtype": "f4"}, 2, 2)
+        covs.append(cov)
+        accs.append(acc)
     if ctx.thorough:
         cov, acc = history.explore(ctx.pool, MOD, "heap", {"ops": ops_for(True), "dtype": "f8"}, 3, 2)
         covs.append(cov)
